@@ -83,8 +83,8 @@ def t_parsed(m, d1, d2, wd, typed=True):
     S = {"properties": {"a": pa, "a b": pb}}
     if typed:
         S.update({"type": "object", "title": "T"})
-    if wd:
-        S["required"] = ["a b"]
+    if wd and typed:
+        S["required"] = ["a b"]  # documented deviation: waived for typed objects (class-based required)
     kw = (lambda d: {"default": d}) if wd else (lambda d: {})
     return parse_s(S), [("a", "a", lambda: Integer(minimum=m, **kw(d1)), d1), ("a_b", "a b", lambda: Integer(maximum=m, **kw(d2)), d2)]
 
